@@ -346,7 +346,8 @@ def rrH : Handler := fun inp impl => do
     let fails := fails0 ++ (if cyc then [] else ["cycle-not-exact"]) ++ (if zeroPicked then ["zero-weight-picked"] else [])
       ++ (if single then [] else ["single-target-shortcut"])
     let cls := (if n = 1 then "single" else if !hasFixed o then "bypass" else "ring") ++
-      (if wrapAt < k then "/wrap" else "") ++ (if k ≥ 2 * N then "/2N+" else if k ≥ N then "/N+" else "/<N")
+      (if wrapAt < k then "/wrap" else "") ++ (if k ≥ 2 * N then "/2N+" else if k ≥ N then "/N+" else "/<N") ++
+      (if (inp.getObjValAs? String "entry").toOption == some "host" then "/host" else "")
     let (spec, tag) := verdictOfSpec fails cls
     let tag := if spec && !wOk then "weights-differ" else if spec && !ringOk then "ring-differs" else if spec && !picksOk then "picks-differ" else tag
     return ({ model := m, agree := wOk && ringOk && picksOk, spec, nontrivial := decide (n ≥ 2 ∧ k ≥ N), tag } : Verdict).toJson
@@ -390,7 +391,8 @@ def rndH : Handler := fun inp impl => do
     let shareOk := !sweep || n ≤ 1 || sweepShareOk n o.ring picks asked
     let fails := specFailures o ++ (if zeroPicked then ["zero-weight-picked"] else [])
       ++ (if shareOk then [] else ["rnd-share-not-ring-share"])
-    let cls := (if n = 1 then "single" else if !hasFixed o then "bypass" else "ring") ++ (if sweep then "/sweep" else "")
+    let cls := (if n = 1 then "single" else if !hasFixed o then "bypass" else "ring") ++ (if sweep then "/sweep" else "") ++
+      (if (inp.getObjValAs? String "entry").toOption == some "host" then "/host" else "")
     let (spec, tag) := verdictOfSpec fails cls
     let tag := if spec && !wOk then "weights-differ" else if spec && !ringOk then "ring-differs" else if spec && !picksOk then "picks-differ" else tag
     return ({ model := m, agree := wOk && ringOk && picksOk, spec, nontrivial := decide (n ≥ 2), tag } : Verdict).toJson
